@@ -51,6 +51,17 @@ def cases(draw):
         seen.add(n.lower())
         quote = draw(st.sampled_from(['"', '"', "'"]))
         kind = draw(st.integers(0, 5))
+        bare = draw(st.integers(0, 7))
+        if bare == 0:
+            # written without quotes ...
+            statics.append([draw(st.sampled_from([" ", "  "])), n, "",
+                            [["lit", draw(st.sampled_from(
+                                ["s", "x1", "a-b", "1", n]))]]])
+            continue
+        if bare == 1:
+            # ... or without a value
+            statics.append([draw(st.sampled_from([" ", "  "])), n, None, []])
+            continue
         if kind == 0:
             parts = [["interp", ["var", draw(st.sampled_from(
                 ["v0", "v1", "v2"]))]]]
@@ -117,7 +128,9 @@ def cases(draw):
             "statics": statics, "dyn": dyn, "bindings": bindings,
             "order": draw(st.lists(st.integers(0, 5), min_size=1,
                                    max_size=2)),
-            "selfclose": draw(st.booleans())}
+            # (an unquoted value directly before "/>" is not generated)
+            "selfclose": draw(st.booleans()) and not any(
+                a[2] == "" for a in statics)}
 
 
 def build(case):
@@ -195,6 +208,10 @@ def model(case, k6=False, k10=False):
             after = -1 if k6 else pos
             if overridden_by_dict(n, after):
                 continue
+            # a computed value stands in quotes, however the static
+            # attribute was written; an attribute written without a value
+            # that gets an empty one stays as it was
+            written, quote = quote, quote or '"'
             v = it.eval(e, with_default=True)
             if v is X.DEFAULT:
                 if has_interp and not k10:
@@ -211,9 +228,15 @@ def model(case, k6=False, k10=False):
             else:
                 val = tmodel.insert_text(v, "text", quote)
             if val is not None:
-                ordered.append((n, quote, val))
+                if written is None and val == "":
+                    ordered.append((n, None, None))
+                else:
+                    ordered.append((n, quote, val))
             continue
         if overridden_by_dict(aname, -1):
+            continue
+        if quote is None:
+            ordered.append((aname, None, None))
             continue
         if has_interp:
             if aname in bools:
